@@ -61,12 +61,14 @@ PLAIN: Dict[str, Tuple[Any, Any, Any]] = {
 
 MISSING = ("<missing key>",)   # sentinel: the record has no 'v' key
 EXTRA = ("<extra key>",)       # sentinel: the record has a plain 'v' plus an unknown field 'zz'
+EMPTY = ("<empty batch>",)     # sentinel: the batch under test has no records at all
 
 # name, value class, supplied value, representative of its class (used in S2)
 _VALUES: List[Tuple[str, str, Any, bool]] = [
     ("none", "none", None, True),
     ("missing_key", "missing_key", MISSING, True),
     ("extra_record_field", "extra_record_field", EXTRA, True),
+    ("empty_batch", "empty_batch", EMPTY, True),
     ("bool_true", "bool", True, True),
     ("int_1", "int_small", 1, False),
     ("i32_max", "int_i32_edge_in", 2**31 - 1, False),
@@ -120,6 +122,7 @@ _VALUES: List[Tuple[str, str, Any, bool]] = [
 ]
 VALUE_BY_NAME = {n: (c, v, r) for n, c, v, r in _VALUES}
 QUICK_S2_CLASSES = ("plain", "none", "fractional_float")
+QUICK_FULL_S1_HISTORIES = ("base_test_same_handle", "test_base_fresh_handle")
 
 FIELD_VARIANTS = ["identical", "reordered", "renumbered_swapped", "renumbered_shifted", "type_changed",
                   "nullability_flipped", "extra_field", "missing_field"]
@@ -309,6 +312,8 @@ def supplied_value(t: str, vname: str) -> Tuple[str, Any]:
 def test_records(t: str, vname: str) -> List[Dict[str, Any]]:
     _c, x = supplied_value(t, vname)
     good = {"k": 200, "v": PLAIN[t][2]}
+    if x is EMPTY:
+        return []
     if x is MISSING:
         return [good, {"k": 201}]
     if x is EXTRA:
@@ -473,14 +478,14 @@ def battery(run: Run, step: str, root: str, handle: Any, t: str, req: bool,
                          k=k, observed_row=r, note="column set differs from the table's columns")
                 continue
             alts = expected[k]
-            if alts is None:
+            if req and r["v"] is None:
+                run.find("null_in_required_column", step, k=k)
+            elif alts is None:
                 run.find("silently_altered", step, k=k, observed=r["v"],
                          note="the declared type cannot represent the supplied value, yet the append was accepted")
             elif not any(same(t, e, r["v"]) for e in alts):
                 run.find("silently_altered" if who == "test" else "other_rows_altered", step,
                          k=k, expected=alts, observed=r["v"])
-            if req and r["v"] is None:
-                run.find("null_in_required_column", step, k=k)
             expected[k] = [r["v"]]  # adopt what is stored: later comparisons judge the read path only
     else:
         ref = [{"k": k, "v": (alts or [None])[0]} for k, alts in expected.items()]
@@ -580,12 +585,13 @@ def run_case(case: Dict[str, Any], idx: int = 0) -> Run:
                     supplied = test_records(t, case["value"])
                     sarg = schema_arg(t, req, case["schema_arg"], case["schema_id_rel"])
                     recs = [dict(r) for r in supplied]
+                    kw = {} if sarg is None else {"schema": sarg}  # omitted = the argument is not passed at all
                     if api == "append_records":
-                        handle.append_records(recs) if sarg is None else handle.append_records(recs, schema=sarg)
+                        handle.append_records(recs, **kw)
                     elif api == "tx_append_data":
-                        with handle.new_transaction() as tx:
+                        with handle.new_transaction() as tx:  # one transaction, two data files
                             tx.append_data(records=recs[:1])
-                            tx.append_data(records=recs[1:]) if sarg is None else tx.append_data(records=recs[1:], schema=sarg)
+                            tx.append_data(records=recs[1:], **kw)
                     else:
                         raise HarnessError(api)
                 else:
@@ -650,10 +656,14 @@ def record_cases(t: str, req: bool, api: str, hist: str, tier: str) -> List[Dict
     cases: List[Dict[str, Any]] = []
     names = ["plain"] + [n for n, _c, _v, _r in _VALUES]
     reps = ["plain"] + [n for n, _c, _v, r in _VALUES if r]
+    s2_values = reps
     if tier == "quick":
         reps = [n for n in reps if supplied_value(t, n)[0] in QUICK_S2_CLASSES]
+        s2_values = reps
         if api == "tx_append_data":
-            names = reps  # quick: the transaction api only over the representatives
+            names, s2_values = reps, ["plain"]
+        elif hist not in QUICK_FULL_S1_HISTORIES:
+            names = reps
     # S1: every value x {omitted, identical}
     for n in names:
         for sv in ("omitted", "identical"):
@@ -665,7 +675,7 @@ def record_cases(t: str, req: bool, api: str, hist: str, tier: str) -> List[Dict
         for sid in ("same", "different"):
             if fv == "identical" and sid == "same":
                 continue
-            for n in reps:
+            for n in s2_values:
                 cases.append(dict(base, value=n, value_class=supplied_value(t, n)[0], schema_arg=fv, schema_id_rel=sid))
     return cases
 
@@ -696,6 +706,10 @@ def worker(payload: Tuple[str, str, bool, str, str, str, int]) -> Dict[str, Any]
     space, t, req, api, hist, tier, seed = payload
     use_local()
     ENV.reset(seed)
+    import pyarrow as pa
+
+    pa.set_cpu_count(1)  # 16 workers x pyarrow's own 16-thread pool only oversubscribes the machine
+    pa.set_io_thread_count(1)
     rep = Report("C11", tier, seed, "exploration")
     cases = record_cases(t, req, api, hist, tier) if space == "records" else file_cases(t, req, api, hist)
     if space == "records":
@@ -803,7 +817,7 @@ def run(tier: str, seed: int) -> Report:
         "transaction} x history {base;test | test;base} x handle {same, fresh load_table} x (S1: every one of the "
         f"{len(_VALUES) + 1} supplied values x schema argument in {{omitted, identical}}; S2: one representative per value "
         "class x each of the 15 other schema-argument variants = 8 field variants x {same, different} schema_id"
-        + ("; quick tier: 5 column types, S2 and the identical schema argument over 3 value classes, transaction api over those representatives only" if tier == "quick" else "")
+        + ("; quick tier: 5 column types; S2 and the identical schema argument over 3 value classes {plain, none, fractional float}; the full value list only in the histories base;test/same handle and test;base/fresh handle, the 3 classes elsewhere; transaction api: S1 over the 3 classes, S2 over the plain value" if tier == "quick" else "")
         + "); files space: column type x required/optional x {Transaction.append_files, Table.append_data} x history x "
         f"{len(FILE_VARIANTS)} pre-built file variants. Every case is one fresh table with two appends, judged after each "
         "append. A case is non-trivial unless it is the happy path (plain value, schema omitted or identical); distinct = "
